@@ -90,10 +90,15 @@ fn main() {
             // run one part alone (development aid): bsmc part <name> [quick|thorough]
             let name = args.get(2).cloned().unwrap_or_default();
             let tier = if args.get(3).map(|s| s == "thorough").unwrap_or(false) { Tier::Thorough } else { Tier::Quick };
+            // a single part is not a check: never let it overwrite the registered evidence files
+            if std::env::var("BSMC_OUT").is_err() {
+                unsafe { std::env::set_var("BSMC_OUT", "/tmp/bsmc_part") };
+            }
             let (prop, part) = match name.as_str() {
                 "c11_attach" => ("C11", mt::part_c11_attach(tier)),
                 "c06_std" => ("C06", c06s::part_std(tier, false)),
                 "c08_exec" => ("C08", c08::part_exec(tier)),
+                "c08_poison" => ("C08", c08::part_poison(tier)),
                 "c08_dap" => ("C08", c08::part_dap_args(tier)),
                 "c16_vard" => ("C16", c06s::part_vard(tier)),
                 "c18_shlib" => ("C18", c18s::part_shlib(tier)),
@@ -205,6 +210,7 @@ fn run_check(id: &str, tier: Tier) -> i32 {
             let mut r = Report::new("C08", tier, "exploration");
             r.parts.push(c08::part_parsers(tier));
             r.parts.push(c08::part_exec(tier));
+            r.parts.push(c08::part_poison(tier));
             r.parts.push(c08::part_dap_args(tier));
             finish(r)
         }
